@@ -25,16 +25,16 @@ git apply "$OUT/patch.diff" || { echo "NOT-CONFIRMED: patch does not apply"; exi
 go build ./... >/dev/null 2>&1 || { echo "NOT-CONFIRMED: does not build"; exit 1; }
 # existing tests of the touched packages (without the demo)
 PKGS=$(git diff --name-only | xargs -n1 dirname | sort -u | sed 's#^#./#' | paste -sd' ')
-if ! go test -p 4 -count=1 $PKGS ./modules/core/keeper/... ./modules/core/04-channel/... >"$OUT/confirm_existing.log" 2>&1; then
+if ! go test -p 4 -count=1 -timeout 120m $PKGS ./modules/core/keeper/... ./modules/core/04-channel/... >"$OUT/confirm_existing.log" 2>&1; then
   echo "NOT-CONFIRMED: existing tests fail with the change (see confirm_existing.log)"; exit 1
 fi
 cp "$OUT/demo_test.go" "$WT/$DIR/zz_demo_seeded_test.go"
-if go test -p 4 -count=1 -run "$RUN" "./$DIR/" >"$OUT/confirm_demo_with.log" 2>&1; then
+if go test -p 4 -count=1 -timeout 120m -run "$RUN" "./$DIR/" >"$OUT/confirm_demo_with.log" 2>&1; then
   echo "NOT-CONFIRMED: demo passes WITH the change"; exit 1
 fi
 grep -q "FAIL" "$OUT/confirm_demo_with.log" || { echo "NOT-CONFIRMED: demo did not run (build error?)"; exit 1; }
 git checkout -q -- .
-if ! go test -p 4 -count=1 -run "$RUN" "./$DIR/" >"$OUT/confirm_demo_without.log" 2>&1; then
+if ! go test -p 4 -count=1 -timeout 120m -run "$RUN" "./$DIR/" >"$OUT/confirm_demo_without.log" 2>&1; then
   echo "NOT-CONFIRMED: demo fails WITHOUT the change"; exit 1
 fi
 echo "CONFIRMED: builds; touched packages' tests pass; demo ($RUN in $DIR) fails with and passes without the change"
